@@ -653,18 +653,43 @@ def sync_before_handover(ctx, p):
     fo = ctx.body('log::Log::flush_one')
     if fo:
         sync_true = lib.prune_bool_field(fo, '.Log.sync', True)
-        ctx.ob(p + 'b sync-assumption-anchored', 'anchor', fo.path, 'a branch on Log.sync exists to prune (assumption sync_wal=true is meaningful)',
-               bool(sync_true), 'no switch on a copy of Log.sync found in flush_one')
         push_sites = [bi for b, bi in pushers if b is fo]
         syncs = lib.must_sites(fo, [SYNC_DATA, SYNC_ALL])
+        # the write-out (buffer flush, then fdatasync) may sit in a private helper of flush_one that is handed Log.sync as a flag: the
+        # helper then stands for the sync at its call site if, with the flag on, each of its success returns has passed sync_data
+        helper = None
+        if not syncs:
+            fam = set(x.path for x in lib.family(F, fo.path))
+            for bi, t in fo.calls():
+                if bi not in fo.normal_blocks():
+                    continue
+                for nm in call_names(t):
+                    hb = F.bodies.get(nm)
+                    if hb is None or hb.path not in fam or hb is fo or not hb.call_sites(SYNC_DATA, SYNC_ALL):
+                        continue
+                    for i, a in enumerate(t['a']):
+                        if op_place(a) is None or i + 1 >= len(hb.locals) or str(hb.locals[i + 1]) != 'bool' or '.Log.sync' not in backward_slice(fo, [op_place(a)], through_calls=False).fields:
+                            continue
+                        pe = lib.prune_bool_param(hb, i + 1, True)
+                        if pe and lib.ok_return_unreachable_avoiding(hb, hb.call_sites(SYNC_DATA, SYNC_ALL), removed_edges=frozenset(pe)) is None:
+                            helper = (hb, frozenset(pe))
+                            syncs.append(bi)
+        ctx.ob(p + 'b sync-assumption-anchored', 'anchor', fo.path, 'a branch on Log.sync exists to prune (assumption sync_wal=true is meaningful)',
+               bool(sync_true) or helper is not None, 'no switch on a copy of Log.sync found in flush_one (or on a flag parameter of its write-out helper that is handed Log.sync)')
         lib.precedes(ctx, p + 'c sync-before-handover', fo, syncs, push_sites,
                      'with sync_wal on, every path to the hand-over push passes File::sync_data', removed_edges=sync_true)
         for ps in push_sites:
             lib.result_guards(ctx, p + 'd handover-only-if-sync-ok', fo, syncs, ps,
                               'the hand-over runs only on the Ok outcome of sync_data (error -> no hand-over)') if syncs else None
-        inner = lib.must_sites(fo, ['std::io::BufWriter::<W>::into_inner', 're:BufWriter.*::flush$', 're:Write>::flush$'])
-        lib.precedes(ctx, p + 'e bufwriter-flushed-before-sync', fo, inner, syncs,
-                     'buffered log bytes are written (BufWriter::into_inner/flush) before sync_data', removed_edges=sync_true)
+        INNER = ['std::io::BufWriter::<W>::into_inner', 're:BufWriter.*::flush$', 're:Write>::flush$']
+        if helper is not None:
+            hb, pe = helper
+            lib.precedes(ctx, p + 'e bufwriter-flushed-before-sync', hb, lib.must_sites(hb, INNER), hb.call_sites(SYNC_DATA, SYNC_ALL),
+                         'buffered log bytes are written (BufWriter::into_inner/flush) before sync_data', removed_edges=pe)
+        else:
+            inner = lib.must_sites(fo, INNER)
+            lib.precedes(ctx, p + 'e bufwriter-flushed-before-sync', fo, inner, syncs,
+                         'buffered log bytes are written (BufWriter::into_inner/flush) before sync_data', removed_edges=sync_true)
     # the same for log files found at open: their bytes may sit only in the page cache (the previous process died, or stopped on an
     # I/O error, before flush_one synced them); replay applies them to the tables, so they are synced first
     rpn = F.body('log::Log::replay_next')
@@ -1489,6 +1514,74 @@ def torn_record_not_handed_over(ctx, p):
     ctx.ob(p + 'k torn-record-never-handed-over', 'K1-must-pass', b.path,
            'when appending a record fails, the appending log writer is given up before the error is returned (the torn file cannot be flushed into the read queue and applied without validation)',
            w is None, 'the error arm keeps Log.appending: the next flush hands the torn file to the applier' if not clears else 'error path that keeps the writer: ' + lib.short_path(b, w), b.loc(ft[0]))
+
+
+def unsynced_log_never_abandoned(ctx, p):
+    """While a log file is the appending file (Log.appending) its bytes may be in the page cache only. It leaves the slot in one of two
+    ways: synced, into the read queue (Log::flush_one), or - the reviewed exception - given up after a torn append (Log::end_record, which
+    makes the log worker stop). If any OTHER exit leaves the slot empty with the file neither handed over nor put back (the error exit of a
+    failed fdatasync, F82), the log worker - which keeps going through its queue after another worker failed - starts a NEWER file beside the
+    unsynced one; the kernel writes the two back independently, and after a power loss the newer records can be on disk without the
+    older ones: recovery then takes its first record id from the newer file and replays a non-prefix."""
+    F = ctx.F
+    TORN_OK = {'log::Log::end_record': 'the append itself failed: the file ends in a torn record and must never reach the non-validating applier; the failed process_commits ends the log worker, so no newer record is logged by this handle (rule k)'}
+    PUSH = ['std::collections::VecDeque::<T, A>::push_back', 're:VecDeque.*::(push_front|extend|append|insert)$']
+    n = 0
+    for b in sorted(F.bodies.values(), key=lambda x: x.path):
+        nb = b.normal_blocks()
+        empties = []
+        for bi, t in b.calls():
+            if bi in nb and call_matches(t, ['re:Option::<T>::take$', 're:^std::mem::(take|replace)$']) and t['a'] and '.Log.appending' in lib.receiver_fields(b, t, 0):
+                empties.append(bi)
+        refills = set()
+        for bi in nb:
+            for st in b.blocks[bi]['s']:
+                if st['k'] != 'assign' or 'Option<log::Appending>' not in str(b.locals[st['p'][0]]) or not ('*' in st['p'][1:] or '.Log.appending' in st['p'][1:]):
+                    continue
+                # a store into the slot (through the guard or a reference to it): `*appending = None` / `= Some(..)`, directly or via a temporary
+                r = st['r']
+                ak = None
+                if r['k'] == 'agg':
+                    ak = r['ak']
+                elif r['k'] == 'use' and op_place(r['a'][0]) is not None and len(op_place(r['a'][0])) == 1:
+                    ds = [d for d in b.defs().get(op_place(r['a'][0])[0], []) if d[2] == 'assign']
+                    if len(ds) == 1 and ds[0][3]['r']['k'] == 'agg':
+                        ak = ds[0][3]['r']['ak']
+                if ak == 'Adt:std::option::Option::None':
+                    empties.append(bi)
+                elif ak == 'Adt:std::option::Option::Some' or ak is None:
+                    refills.add(bi)         # (a value of unknown shape stored into the slot counts as a refill)
+        if not empties:
+            continue
+        handover = set(bi for bi, t in b.calls() if bi in nb and call_matches(t, PUSH) and '.Log.read_queue' in lib.receiver_fields(b, t, 0))
+        # (the hand-over may sit in a helper that always pushes)
+        handover |= set(lib.sites_reaching(b, PUSH, lift=False)) if False else set()
+        for i, e in enumerate(sorted(set(empties))):
+            n += 1
+            exits = set(b.return_blocks())
+            starts = list(b.succ(e))
+            te = b.term(e)
+            if te['k'] == 'call' and te.get('d') and len(te['d']) == 1:
+                # `take()` took a file only on the Some edge of the test of its result
+                for x in sorted(b.reachable_from(starts, removed=set())):
+                    tx = b.term(x)
+                    if tx['k'] != 'switch':
+                        continue
+                    d = lib.switch_def(b, x)
+                    if d and d[2] == 'assign' and d[3]['r']['k'] == 'discr' and d[3]['r']['p'][0] == te['d'][0] and all(b.dominates(x, y) or y == x for y in [x]) and b.dominates(e, x):
+                        some = [tg for v, tg in zip(tx['vals'], tx['ts']) if v == 1]
+                        if some:
+                            starts = some
+                            break
+            w = b.find_path(starts, exits, removed=handover | refills)
+            tk = [k for k in TORN_OK if lib.site_in(F, k, b.path)]
+            if w is not None and tk:
+                ctx.ob(p + 'u unsynced-log-never-abandoned %s #%d' % (b.path, i), 'K1-must-pass', b.path, 'reviewed exception: ' + TORN_OK[tk[0]], True, '', b.loc(e))
+                continue
+            ctx.ob(p + 'u unsynced-log-never-abandoned %s #%d' % (b.path, i), 'K1-must-pass', b.path,
+                   'once the appending log file was taken out of its slot, every exit of the function - the error exits too - has either handed it to the read queue or put it back: no exit leaves an unsynced file abandoned while the slot is free for a newer one',
+                   w is None, '' if w is None else 'exit that abandons the file: ' + lib.short_path(b, w), b.loc(e))
+    ctx.ob(p + 'u0 appending-slot-anchor', 'anchor', 'log::Log', 'the sites that empty Log.appending were found (flush_one, and the torn-record arm of end_record)', n >= 2, '%d sites' % n)
 
 
 def failed_cleanup_keeps_queue_order(ctx, p):
